@@ -235,6 +235,31 @@ impl Case for WCase {
                         ctx.obs("popcnt_wide::<0>", "", len as u128, code, 0, Exp::Is(0), || popcnt_wide::<0>(&d));
                     }
                 }
+                // wide N (an accumulator packed into lanes would saturate): slices of 0..=70 words that are constant, or
+                // constant with one other word at every position, over the same alphabet plus saturated byte columns
+                let fills = [0u64, u64::MAX, 0x0000_0000_00FF_0000, 0xFF00_0000_0000_00FF, 0xA5A5_A5A5_0F0F_1234, 1];
+                for len in [0usize, 1, 15, 16, 17, 30, 31, 32, 33, 63, 64, 65, 70] {
+                    for (fi, &f) in fills.iter().enumerate() {
+                        for other in [None, Some(0u64), Some(u64::MAX)] {
+                            let spots: Vec<usize> = if other.is_some() { (0..len).collect() } else { vec![0] };
+                            for spot in spots {
+                                let mut d = vec![f; len];
+                                if let Some(o) = other {
+                                    d[spot] = o;
+                                }
+                                let pc = |n: usize| d.iter().take(n).map(|w| w.count_ones() as usize).sum::<usize>();
+                                let code = (fi * 1000 + spot) as u64;
+                                ctx.obs("popcnt_wide::<16>", "", len as u128, code, 0, Exp::Is(pc(16)), || popcnt_wide::<16>(&d));
+                                ctx.obs("popcnt_wide::<31>", "", len as u128, code, 0, Exp::Is(pc(31)), || popcnt_wide::<31>(&d));
+                                ctx.obs("popcnt_wide::<32>", "", len as u128, code, 0, Exp::Is(pc(32)), || popcnt_wide::<32>(&d));
+                                ctx.obs("popcnt_wide::<33>", "", len as u128, code, 0, Exp::Is(pc(33)), || popcnt_wide::<33>(&d));
+                                ctx.obs("popcnt_wide::<64>", "", len as u128, code, 0, Exp::Is(pc(64)), || popcnt_wide::<64>(&d));
+                                ctx.obs("popcnt_wide::<65>", "", len as u128, code, 0, Exp::Is(pc(65)), || popcnt_wide::<65>(&d));
+                                ctx.obs("popcnt_wide::<1000>", "", len as u128, code, 0, Exp::Is(pc(1000)), || popcnt_wide::<1000>(&d));
+                            }
+                        }
+                    }
+                }
             }
             WCase::Msb => {
                 ctx.note_input(&"msb", true);
